@@ -41,6 +41,9 @@ fn slot_exprs() -> Vec<(&'static str, Expr)> {
         ("counter", call(var("tick"), vec![])),
         ("function literal called", call(func(vec![], false, vec![ret(string("f"))]), vec![])),
         ("literal with escapes", ex(EK::Str(vec![('q', Spell::Raw), ('"', Spell::Esc), ('\\', Spell::Esc), ('n', Spell::Raw)]))),
+        ("literal ending in a backslash", ex(EK::Str(vec![('C', Spell::Raw), (':', Spell::Raw), ('\\', Spell::Esc)]))),
+        ("backslash alone", ex(EK::Str(vec![('\\', Spell::Esc)]))),
+        ("call with a backslash literal", call(var("id"), vec![bin(Op::Sum, ex(EK::Str(vec![('\\', Spell::Esc)])), ex(EK::Str(vec![('"', Spell::Esc), ('\\', Spell::Esc)])))])),
     ]
 }
 
